@@ -40,11 +40,11 @@ func newFlowBuffer(factor int) *flowBuffer {
 }
 
 func (b *flowBuffer) PutOne(ctx context.Context, m Completed) (chan RedisResult, error) {
-	verifYield(nil, "fb.put", b, m)
+	verifYield(ctx, "fb.put", b, m)
 	select {
 	case cmd := <-b.f:
 		cmd.one = m
-		verifYield(nil, "fb.put.send", b, m)
+		verifYield(ctx, "fb.put.send", b, m)
 		b.w <- cmd
 		return cmd.ch, nil
 	case <-ctx.Done():
@@ -53,11 +53,11 @@ func (b *flowBuffer) PutOne(ctx context.Context, m Completed) (chan RedisResult,
 }
 
 func (b *flowBuffer) PutMulti(ctx context.Context, m []Completed, resps []RedisResult) (chan RedisResult, error) {
-	verifYield(nil, "fb.put", b, verifFirst(m))
+	verifYield(ctx, "fb.put", b, verifFirst(m))
 	select {
 	case cmd := <-b.f:
 		cmd.multi, cmd.resps = m, resps
-		verifYield(nil, "fb.put.send", b, verifFirst(m))
+		verifYield(ctx, "fb.put.send", b, verifFirst(m))
 		b.w <- cmd
 		return cmd.ch, nil
 	case <-ctx.Done():
